@@ -54,7 +54,7 @@ void *xmalloc(size_t sz)
 #endif
 
 #define IN_FIELDS(S, A)                                                                          \
-	S(uint8_t, n) A(uint8_t, ls, N) S(uint8_t, k) S(uint8_t, dir) A(uint8_t, ext, K + 1)
+	S(uint8_t, n) A(uint8_t, ls, N) S(uint8_t, k) S(uint8_t, dir) A(uint8_t, ext, K + 1) A(uint8_t, junk, 2 * N)
 VERIF_INPUTS(IN_FIELDS)
 
 /* ------------------------------------------------------------------ sequences of node numbers */
@@ -90,17 +90,11 @@ static uint8_t LC[N], RC[N], PAR[N]; /* abstract shape: children and parent by n
 static bintree_node_t POOL[N];
 static bintree_node_t *NODE[N];
 
-static void shape(void)
+static uint8_t LS[N + 1]; /* size of the left subtree of node i: together with n_nodes this IS the abstract shape */
+
+/* children, parents and subtree sizes from (n_nodes, LS[]) */
+static void derive(void)
 {
-	VERIF_LOAD_INPUTS();
-	n_nodes = IN.n;
-	VASSUME(n_nodes <= N);
-#ifdef FIXN /* partition of the universe: one query per node count */
-	VASSUME(n_nodes == FIXN);
-#endif
-#ifdef FIXL0 /* ... and per size of the root's left subtree */
-	VASSUME(n_nodes == 0 || IN.ls[0] == FIXL0);
-#endif
 	for (unsigned i = 0; i <= N; i++)
 		SZ[i] = 0;
 	SZ[0] = n_nodes;
@@ -109,7 +103,7 @@ static void shape(void)
 		if (i == 0)
 			PAR[0] = NONE;
 		if (i < n_nodes) {
-			uint8_t l = IN.ls[i];
+			uint8_t l = LS[i];
 			VASSUME(l < SZ[i]);
 			uint8_t r = (uint8_t)(SZ[i] - 1 - l);
 			if (l) {
@@ -128,6 +122,32 @@ static void shape(void)
 	}
 }
 
+/* symbolic shape: node count and left-subtree sizes are inputs */
+static void shape(void)
+{
+	VERIF_LOAD_INPUTS();
+#ifdef SHAPE_N /* one concrete shape per query: the constants are assigned (not assumed) so that CBMC's symbolic execution
+		* propagates them; SHAPE_N nodes, SHAPE_LS = the left-subtree sizes in pre-order */
+	{
+		static const uint8_t fixed_ls[N + 1] = { SHAPE_LS };
+		IN.n = SHAPE_N;
+		for (unsigned i = 0; i < N; i++)
+			IN.ls[i] = fixed_ls[i];
+	}
+#endif
+	n_nodes = IN.n;
+	VASSUME(n_nodes <= N);
+#ifdef FIXN /* partition of the universe: one query per node count */
+	VASSUME(n_nodes == FIXN);
+#endif
+#ifdef FIXL0 /* ... and per size of the root's left subtree */
+	VASSUME(n_nodes == 0 || IN.ls[0] == FIXL0);
+#endif
+	for (unsigned i = 0; i < N; i++)
+		LS[i] = IN.ls[i];
+	derive();
+}
+
 static bintree_node_t *node_or_null(uint8_t i)
 {
 	return i == NONE ? NULL : NODE[i];
@@ -137,7 +157,7 @@ static bintree_node_t *node_or_null(uint8_t i)
 static void realise(bool heap)
 {
 	for (unsigned i = 0; i < N; i++) {
-		NODE[i] = heap ? (bintree_node_t *)malloc(sizeof(bintree_node_t)) : &POOL[i];
+		NODE[i] = (heap && i < n_nodes) ? (bintree_node_t *)malloc(sizeof(bintree_node_t)) : &POOL[i];
 		VASSUME(NODE[i] != NULL);
 	}
 	for (unsigned i = 0; i < N; i++) {
@@ -257,11 +277,10 @@ static void shape_covers(void)
 /* ------------------------------------------------------------------ in / pre / post-order iterators */
 
 #define ITERATOR_HARNESS(fn, ORDER, iterate, traverse, reference)                                                        \
-	void fn(void)                                                                                                    \
+	static void check_##fn(void)                                                                                     \
 	{                                                                                                                \
 		struct seq ora = { 0 }, ref = { 0 }, got = { 0 };                                                        \
 		bintree_iterator_t it;                                                                                   \
-		shape();                                                                                                 \
 		realise(false);                                                                                          \
 		traverse(root(), log_visitor, &ora);                                                                     \
 		reference(&ref, n_nodes ? 0 : NONE);                                                                     \
@@ -276,6 +295,11 @@ static void shape_covers(void)
 		VASSERT(links_intact(),                                                                                  \
 			"C11 after " ORDER " iteration has run to completion every link of the tree has its original value"); \
 		shape_covers();                                                                                          \
+	}                                                                                                                \
+	void fn(void)                                                                                                    \
+	{                                                                                                                \
+		shape();                                                                                                 \
+		check_##fn();                                                                                            \
 	}
 
 ITERATOR_HARNESS(h_iter_in_order, "in-order", bintree_iterate_in_order, bintree_traverse_in_order, ref_in_order)
@@ -289,18 +313,34 @@ static struct seq FLOG;
 /* the deallocator really frees: any later read of the node is a dereference failure (CBMC) / use-after-free (ASan) */
 static void dealloc_stub(bintree_node_t *p)
 {
-	seq_add(&FLOG, idx_of(p));
+	uint8_t i = idx_of(p);
+	seq_add(&FLOG, i);
+#ifdef POOLFREE
+	/* cheap variant for larger shapes: nodes live in the static pool and "deallocation" overwrites both links with
+	 * arbitrary junk from the input record (NULL, any node, either with the tag bit set), so that code which still reads
+	 * the node afterwards behaves arbitrarily and breaks an obligation; the exact use-after-free obligation is the
+	 * malloc/free variant (default), which is only affordable for small shapes */
+	if (i < N) {
+		uint8_t a = IN.junk[2 * i], b = IN.junk[2 * i + 1];
+		p->left = (bintree_node_t *)((uintptr_t)((a >> 1) < N ? NODE[a >> 1] : NULL) | (a & 1u));
+		p->right = (bintree_node_t *)((uintptr_t)((b >> 1) < N ? NODE[b >> 1] : NULL) | (b & 1u));
+	}
+#else
 	free(p);
+#endif
 }
 
 static void free_setup(void)
 {
-	shape();
+#ifdef POOLFREE
+	realise(false);
+#else
 	realise(true);
+#endif
 	FLOG.len = 0;
 }
 
-void h_free(void)
+static void check_h_free(void)
 {
 	free_setup();
 	bintree_free(root(), dealloc_stub);
@@ -309,12 +349,18 @@ void h_free(void)
 	shape_covers();
 }
 
+void h_free(void)
+{
+	shape();
+	check_h_free();
+}
+
 /* the subtree to free hangs below node 0 (any shape, next to a sibling subtree of any shape) */
-void h_free_left(void)
+static void check_h_free_left(void)
 {
 	free_setup();
 	VASSUME(n_nodes >= 1);
-	unsigned lo = 1, cnt = IN.ls[0];
+	unsigned lo = 1, cnt = LS[0];
 	bintree_free_left(NODE[0], dealloc_stub);
 	VASSERT(each_exactly_once(&FLOG, lo, cnt),
 		"C11 bintree_free_left passes every node of the left subtree, and no other node, to the deallocator exactly once");
@@ -326,11 +372,17 @@ void h_free_left(void)
 	VCOVER(cnt >= 2 && LC[1] != NONE && RC[1] != NONE, "freed subtree has a root with two children");
 }
 
-void h_free_right(void)
+void h_free_left(void)
+{
+	shape();
+	check_h_free_left();
+}
+
+static void check_h_free_right(void)
 {
 	free_setup();
 	VASSUME(n_nodes >= 1);
-	unsigned lo = 1u + IN.ls[0], cnt = n_nodes - 1u - IN.ls[0];
+	unsigned lo = 1u + LS[0], cnt = n_nodes - 1u - LS[0];
 	bintree_free_right(NODE[0], dealloc_stub);
 	VASSERT(each_exactly_once(&FLOG, lo, cnt),
 		"C11 bintree_free_right passes every node of the right subtree, and no other node, to the deallocator exactly once");
@@ -341,6 +393,88 @@ void h_free_right(void)
 	VCOVER(cnt >= 1 && LC[0] != NONE, "sibling subtree survives");
 	VCOVER(cnt >= 3 && LC[lo] != NONE && RC[lo] != NONE, "freed subtree has a root with two children");
 }
+
+void h_free_right(void)
+{
+	shape();
+	check_h_free_right();
+}
+
+/* ------------------------------------------------------------- exhaustive enumeration of the shape universe
+ *
+ * The symbolic-shape entries above cost minutes per query at N = 4 (measured: 6 m 40 s for the in-order iterator), because
+ * every pointer of the tree is a symbolic choice.  The registered checks therefore enumerate the universe instead: a
+ * depth-first walk over the left-subtree sizes generates every shape with exactly ENUM_N nodes (optionally: with a root
+ * whose left subtree has ENUM_L0 nodes) with *concrete* values, so CBMC's symbolic execution propagates constants and runs
+ * the real iterator / bintree_free on each shape; every VASSERT and every CBMC pointer check is evaluated per shape.
+ * The number of shapes visited is asserted against the Catalan number, so a walk that skips shapes is not a pass.
+ */
+#ifndef ENUM_N
+#define ENUM_N N
+#endif
+static unsigned enum_count;
+static int enum_which;
+
+static void enum_check(void)
+{
+	switch (enum_which) {
+	case 0: check_h_iter_in_order(); break;
+	case 1: check_h_iter_pre_order(); break;
+	case 2: check_h_iter_post_order(); break;
+	case 3: check_h_free(); break;
+	case 4: if (n_nodes >= 1) check_h_free_left(); break;
+	default: if (n_nodes >= 1) check_h_free_right(); break;
+	}
+	enum_count++;
+}
+
+static void enum_rec(unsigned i)
+{
+	if (i >= n_nodes) {
+		derive();
+		enum_check();
+		return;
+	}
+	for (unsigned l = 0; l < SZ[i]; l++) {
+#ifdef ENUM_L0
+		if (i == 0 && l != ENUM_L0)
+			continue;
+#endif
+		uint8_t r = (uint8_t)(SZ[i] - 1 - l);
+		LS[i] = (uint8_t)l;
+		if (l)
+			SZ[i + 1] = (uint8_t)l;
+		if (r)
+			SZ[i + 1 + l] = r;
+		enum_rec(i + 1);
+	}
+}
+
+static void enum_all(int which)
+{
+	static const unsigned catalan[] = { 1, 1, 2, 5, 14, 42, 132, 429, 1430, 4862 };
+	VERIF_LOAD_INPUTS();
+	enum_which = which;
+	enum_count = 0;
+	n_nodes = ENUM_N;
+	for (unsigned i = 0; i <= N; i++)
+		SZ[i] = 0;
+	SZ[0] = n_nodes;
+	enum_rec(0);
+#ifdef ENUM_L0
+	VASSERT(enum_count == catalan[ENUM_L0] * catalan[ENUM_N - 1 - ENUM_L0],
+		"C11 the enumeration visited every shape of its partition (Catalan count)");
+#else
+	VASSERT(enum_count == catalan[ENUM_N], "C11 the enumeration visited every shape with this node count (Catalan number)");
+#endif
+}
+
+void h_enum_iter_in_order(void) { enum_all(0); }
+void h_enum_iter_pre_order(void) { enum_all(1); }
+void h_enum_iter_post_order(void) { enum_all(2); }
+void h_enum_free(void) { enum_all(3); }
+void h_enum_free_left(void) { enum_all(4); }
+void h_enum_free_right(void) { enum_all(5); }
 
 /* --------------------------------------------------------------------------------- list iterator */
 
@@ -369,6 +503,10 @@ void h_iter_list(void)
 	struct seq ora = { 0 }, want = { 0 }, got = { 0 };
 	bintree_iterator_t it;
 	VERIF_LOAD_INPUTS();
+#ifdef SPINE_K /* concrete spine (assigned, so that symbolic execution propagates it); the elements' children stay symbolic */
+	IN.k = SPINE_K;
+	IN.dir = SPINE_DIR;
+#endif
 	unsigned k = IN.k;
 	bool right_leaning = IN.dir != 0;
 	VASSUME(k <= K && IN.dir <= 1);
@@ -410,11 +548,14 @@ void h_iter_list(void)
 
 	VASSERT(seq_eq(&got, &ora), "C11 list iterator yields the same elements as the recursive list traversal");
 	VASSERT(seq_eq(&got, &want), "C11 list iterator yields the elements of the spine in list order, each once");
+#ifndef SPINE_K
 	VCOVER(k == K && !right_leaning, "left-leaning spine of K list nodes");
 	VCOVER(k == K && right_leaning, "right-leaning spine of K list nodes");
 	VCOVER(k == 0, "a lone element");
 	VCOVER(k == 1, "one list node");
-	VCOVER(k >= 2 && (IN.ext[0] & 5) == 5 && (IN.ext[k] & 10) == 10, "elements with children flagged as list nodes");
+#endif
+	VCOVER(k < 2 || ((IN.ext[0] & 5) == 5 && (IN.ext[k] & 10) == 10), "elements with children flagged as list nodes");
 }
 
-VERIF_ENTRIES(E(h_iter_in_order) E(h_iter_pre_order) E(h_iter_post_order) E(h_free) E(h_free_left) E(h_free_right) E(h_iter_list))
+VERIF_ENTRIES(E(h_iter_in_order) E(h_iter_pre_order) E(h_iter_post_order) E(h_free) E(h_free_left) E(h_free_right) E(h_iter_list)
+	      E(h_enum_iter_in_order) E(h_enum_iter_pre_order) E(h_enum_iter_post_order) E(h_enum_free) E(h_enum_free_left) E(h_enum_free_right))
